@@ -1,5 +1,6 @@
 import Aplang.Model.Run
 import Aplang.Model.Config
+import Aplang.Model.Cli
 import Aplang.Gen.CharTables
 /-!
 # Line-protocol driver: runs the model's executable definitions.
@@ -208,11 +209,24 @@ def handleRun (args : List String) : String :=
     s!"{status} {hexStr out.output} fs={fsd} cyclic={cyclic}"
   | _ => "bad-request"
 
+/-- `CLI <mode> <debug> <check> <src> <stdin>` -/
+def handleCli (args : List String) : String :=
+  match args with
+  | [mode, debug, check, src, stdin] =>
+    let m := if mode == "file" then SourceMode.file else if mode == "eval" then .eval else .evalStdin
+    let d := match debug with
+      | "time" => DebugMode.time | "all" => .all | "lexer" => .lexer | "parser" => .parser
+      | "interpreter" => .interpreter | _ => .none
+    let out := cliRun cfg 1000000 ⟨m, d, check == "1"⟩ (unhex src) { stdin := unhex stdin } []
+    s!"{if out.exitZero then 0 else 1} {hexStr out.stdout} {if out.stderrNonEmpty then 1 else 0}"
+  | _ => "bad-request"
+
 def handle (line : String) : String :=
   match line.trimAscii.toString.splitOn " " with
   | ["LEX", src] => handleLex (unhex src)
   | ["PARSE", src] => handleParse (unhex src)
   | "RUN" :: rest => handleRun rest
+  | "CLI" :: rest => handleCli rest
   | ["PING"] => "pong"
   | _ => "bad-request"
 
